@@ -8,6 +8,14 @@ COMMON_NOTE = ("Trusted: Coq 8.16.1 kernel; extraction with ExtrOcamlBasic only 
                "monitors and oracle answers (Go standard library); the theorems are about the hand-written Gallina model, which is tied "
                "to /repo on every run by regenerated tables/type descriptors and by differential execution against the implementation. ")
 
+SRV = ("Machine-checked theorems over the abstract server state machine Fdo/Server.v (http.Handler token discipline, tunnel-before-dispatch, the "
+     "four responders over the session store; message routing table regenerated from protocol.Of) holding for every request history of any "
+     "length over any number of interleaved sessions (induction over reachable states with a provenance invariant). Tied to the code by running "
+     "request histories built by a hand-written client (internal/raw: honest, every catalogued fault at every position, every token form, "
+     "dropped/repeated/replayed messages, client error messages, random interleavings) against the real http.Handler + responders + SQLite and "
+     "through the extracted machine, comparing per step the response type and the persistent effects; implementation-side monitors re-check "
+     "the statements without the model. ")
+
 CLAIMED = {
     "C12": dict(
         text="Machine-checked theorems over the executable model of cbor.Decoder (all target shapes, all byte strings, all oracle "
@@ -79,6 +87,42 @@ CLAIMED = {
              "an oracle answer.",
         technique="Rocq proof (induction over the entry chain, reduction to oracle collisions) + differential correspondence",
         design="4 (C04)"),
+    "C02": dict(
+        text=SRV + "C02: SetupDevice answers only a ProveDevice passing every check in a started TO2 session; 67/69/71, module invocation and voucher "
+             "replacement only inside the tunnel of a session that proved the device; over whole histories, without such a ProveDevice the peer "
+             "sees only 61/63 and errors (no_proof_no_service).",
+        note=COMMON_NOTE + "The per-request facts (signature verifies under the device certificate key, nonce, UEID, well-formed key-exchange parameter) "
+             "are established by the driver by construction and by standard-library cryptography, not derived in Coq from bytes; the COSE and "
+             "key-exchange byte-level models are those of C13/C14. Faults that need a failing token store or a concurrent interleaving inside one "
+             "request are outside the sequential model.",
+        technique="Rocq proof (invariant over reachable server states, history-level corollary) + differential correspondence on request histories",
+        design="4 (C02)"),
+    "C06": dict(
+        text=SRV + "C06: a redirect blob is stored only for an OwnerSign passing every check presented with the token of a TO0 session whose Hello was "
+             "answered; replays and foreign/finished tokens store nothing; 'chain verifies' and 'current owner' are C04's theorems. TTL policy "
+             "outcomes (refuse, shorten, extend, none): stored expiry and reported WaitSeconds compared with the accepted value on the implementation.",
+        note=COMMON_NOTE + "The TTL/expiry arithmetic is monitored on the implementation only (no model). The facts about an OwnerSign body are "
+             "established by the driver by construction.",
+        technique="Rocq proof (invariant over reachable server states; chain theorems of C04) + differential correspondence on request histories",
+        design="4 (C06)"),
+    "C07": dict(
+        text=SRV + "C07: RVRedirect answers only a ProveToRV passing every check in a started TO1 session, once per session; acceptance of a COSE_Sign1 "
+             "(device token, owner blob) is exactly the primitive's yes for that key and Sig_structure (C13). Device side: the library's TO1+TO2 "
+             "client given the registered blob unaltered and altered in 11 ways is compared with the model of verifyVoucher's decision; "
+             "registrations are probed right after their expiry instant.",
+        note=COMMON_NOTE + "Expiry is exercised against the wall clock (2 s registrations probed 20 ms and 1.1 s after expiry); time itself is not modelled. "
+             "The device-side model covers the redirect signature decision only.",
+        technique="Rocq proof (invariant over reachable server states; COSE exactness) + differential correspondence on histories and on the device's redirect decision",
+        design="4 (C07)"),
+    "C08": dict(
+        text=SRV + "C08: voucher storage / blob storage / module invocation / voucher replacement only for the right message, passing every check, with "
+             "the token of a session of that protocol that went through the prerequisite steps; missing/forged/damaged/finished/errored tokens "
+             "change nothing; a session is dead after an error or final response and stays dead forever. The full statement for voucher "
+             "replacement (service-info exchange before Done) is refuted on the model with a witness that replays on the code (open known finding).",
+        note=COMMON_NOTE + "One open known finding: Done accepted without the service-info exchange. Errors for unsupported message types "
+             "(no responder) do not touch any token; 'after any error' is read as errors of the session's own protocol handler.",
+        technique="Rocq proof (invariant over reachable server states, monotone death of sessions, refutation witness) + differential correspondence on request histories",
+        design="4 (C08)"),
     "C20": dict(
         text="Machine-checked theorems over the executable model of protocol.parseDirective/parseURLs/cbor.ArrayShift built on the CBOR "
              "decoder model: totality for every instruction list and role, other-role directives yield the zero directive, invariance under "
